@@ -42,6 +42,10 @@ MAPARGS = ("emit", "map_args", {})
 FRESH = ("mutators", "fresh_ids", {})
 IMPORD = ("mutators", "import_ordinal", {})
 SCRATCH = ("emit", "loop_scratch", {})
+INJAT = ("modes", "inject_at_protocol", {})
+TFLOW = ("fields", "type_field_flow", {})
+LCG = ("mutators", "local_count_guard", {})
+DELP = ("misc", "delete_pairing", {})
 REIDX = [("reindex", "refers_exh", {"kind": k}) for k in ("func", "global", "memory")]
 IDSPACE = ("mutators", "idspace", {})
 
@@ -56,9 +60,9 @@ PROPS = {
              "R-TYPE-TABLE (wasm_encoder writer), aux tables, R-CONSTEXPR-TABLE, R-SECTION-ORDER, R-PAYLOAD-EXH, R-LOOP-SCRATCH, R-REFERS-EXH (the updaters run on every encode, with identity maps on an unmodified module: each must write a looked-up index back to the operand it was looked up for).",
              "that the whole output validates for every module.",
              "abstract interpretation of match tables over a finite type domain; call-order check"),
-    "C02": P([TT_WE, TT_AUX, CONSTEXPR, ("fields", "types_cover", {}), ("fields", "name_pairing", {}), ("fields", "struct_copy_pairing", {}), ("fields", "custom_sections", {}), IMPORD, SCRATCH] + REIDX,
+    "C02": P([TT_WE, TT_AUX, CONSTEXPR, ("fields", "types_cover", {}), ("fields", "name_pairing", {}), ("fields", "struct_copy_pairing", {}), ("fields", "custom_sections", {}), IMPORD, SCRATCH, TFLOW] + REIDX,
              "necessary conditions of content preservation: no type/const table changes a value, no Types field is dropped by the encoder, every name subsection and custom section is re-emitted from where it was stored, struct→struct copies pair like-named fields",
-             "R-TYPE-TABLE, R-CONSTEXPR-TABLE, R-FIELDS-COVER(Types), R-NAME-PAIRING, R-COPY-PAIRING, R-CUSTOM-SECTIONS, R-IMPORT-ORDINAL, R-LOOP-SCRATCH, R-REFERS-EXH.",
+             "R-TYPE-TABLE, R-CONSTEXPR-TABLE, R-FIELDS-COVER(Types), R-NAME-PAIRING, R-COPY-PAIRING, R-CUSTOM-SECTIONS, R-IMPORT-ORDINAL, R-LOOP-SCRATCH, R-REFERS-EXH, R-TYPE-FIELD-FLOW.",
              "equality of decoded forms on every input.",
              "table extraction + field-provenance pairing"),
     "C03": P([("nopanic", "nopanic", {})],
@@ -97,24 +101,24 @@ PROPS = {
              "R-DELETE-PAIRING, R-DEL-GUARD, R-MISS-LOUD, R-RECALC-SET, R-REORG-INV.",
              "that every other entity keeps its identity over all histories.",
              "field-provenance pairing + guarded-sink analysis"),
-    "C10": P([IDSPACE, ("misc", "convert_flows", {}), RECALC, IMPORD],
+    "C10": P([IDSPACE, ("misc", "convert_flows", {}), RECALC, IMPORD, REORG, DELP, LCG],
              "necessary: the slot flipped to Local is addressed in the function index space, under the signature guard, after the import was deleted",
-             "R-IDSPACE, R-CONVERT-FLOW, R-RECALC-SET, R-IMPORT-ORDINAL.",
+             "R-IDSPACE, R-CONVERT-FLOW, R-RECALC-SET, R-IMPORT-ORDINAL, R-REORG-INV, R-DELETE-PAIRING (delete_func, which the conversion reuses, touches only the function and its import), R-LOCAL-COUNT-GUARD.",
              "that every former use executes the new body.",
              "newtype cross-space lint + path order"),
-    "C11": P([("mutators", "coupled_import_order", {}), ("mutators", "counter_inv", {}), ("misc", "convert_flows", {}), RECALC],
+    "C11": P([("mutators", "coupled_import_order", {}), ("mutators", "counter_inv", {}), ("misc", "convert_flows", {}), RECALC, REORG],
              "necessary: import order coupling, counter invariant, provenance of the new ImportedFunction",
-             "R-COUPLED-IMPORT-ORDER, R-COUNTER-INV, R-CONVERT-FLOW, R-RECALC-SET.",
+             "R-COUPLED-IMPORT-ORDER, R-COUNTER-INV, R-CONVERT-FLOW, R-RECALC-SET, R-REORG-INV.",
              "redirect semantics over histories.",
              "abstract counter deltas per path + provenance"),
-    "C12": P([("misc", "builder_flow", {}), ("mutators", "counter_inv", {}), ("mutators", "swap_flows", {}), TT_WE],
+    "C12": P([("misc", "builder_flow", {}), ("mutators", "counter_inv", {}), ("mutators", "swap_flows", {}), TT_WE, ("mutators", "locals_owner", {}), LCG],
              "necessary: builder hand-over order and arguments, sibling agreement of the finish variants, counter invariant, no same-typed parameter swaps, type table",
-             "R-BUILDER-FLOW, R-COUNTER-INV, R-SWAP, R-TYPE-TABLE.",
+             "R-BUILDER-FLOW, R-COUNTER-INV, R-SWAP, R-TYPE-TABLE, R-LOCALS (declared locals), R-LOCAL-COUNT-GUARD.",
              "decoded equality.",
              "path enumeration + name-aligned flow lint"),
-    "C13": P([("fields", "types_cover", {}), ("misc", "type_dedup", {}), ("hashorder", "hashorder", {}), ("mutators", "swap_flows", {}), TT_WE],
+    "C13": P([TFLOW, ("fields", "types_cover", {}), ("misc", "type_dedup", {}), ("hashorder", "hashorder", {}), ("mutators", "swap_flows", {}), TT_WE],
              "necessary: Hash/Eq/encode agree on Types fields, the type store has one writer and dedups before inserting, the dedup winner does not depend on hash order",
-             "R-FIELDS-COVER(Types), R-TYPE-DEDUP, R-HASHORDER, R-SWAP, R-TYPE-TABLE.",
+             "R-TYPE-FIELD-FLOW, R-FIELDS-COVER(Types), R-TYPE-DEDUP, R-HASHORDER, R-SWAP, R-TYPE-TABLE.",
              "index stability with explicit rec groups (iso-recursive identity).",
              "who-may-write + guarded-insert analysis"),
     "C14": P([("mutators", "locals_owner", {}), TT_WE],
@@ -122,44 +126,44 @@ PROPS = {
              "R-LOCALS (owner, shape on every path, caller arguments), R-TYPE-TABLE.",
              "nothing beyond the trusted base for the index formula; the encoded declaration relies on C01's tables.",
              "who-may-write + path enumeration"),
-    "C15": P([MODEF, ("modes", "has_instr_cover", {}), ("modes", "emit_order", {}), SIB],
+    "C15": P([MODEF, ("modes", "has_instr_cover", {}), ("modes", "emit_order", {}), SIB, INJAT],
              "structural whole of the plain-mode lowering: mode→list dispatch, has_instr coverage, emission order on every path, sibling agreement of the injection APIs",
-             "R-MODE-FIELD, R-HAS-INSTR, R-EMIT-ORDER, R-SIBLING(instrumenter).",
+             "R-MODE-FIELD, R-HAS-INSTR, R-EMIT-ORDER, R-SIBLING(instrumenter), R-INJECT-AT.",
              "textual equality on concrete programs (a consequence).",
              "path enumeration over structured HIR + sibling effect summaries"),
-    "C17": P([BLOCKT, DETAILS, CLEARS, ("special", "entry_preserve", {})],
+    "C17": P([LCG, BLOCKT, DETAILS, CLEARS, ("special", "entry_preserve", {})],
              "necessary: exit probes cover every return/throw/trap operator, wrapper opened/closed once, entry at idx 0, entry body preserved",
              "R-BLOCK-TABLES(4), R-RESOLVER-DETAILS, R-RESOLVE-CLEARS, R-ENTRY-PRESERVE.",
              "firing counts at run time.",
              "ADT-driven table checks + path enumeration"),
-    "C18": P([BLOCKT, DETAILS, CLEARS],
+    "C18": P([LCG, BLOCKT, DETAILS, CLEARS],
              "necessary: accepting predicate, resolver and driver agree on {Block,Loop,If,Else}; body placed After the opener; list cleared",
              "R-BLOCK-TABLES(2), R-RESOLVER-DETAILS, R-RESOLVE-CLEARS.",
              "firing semantics.",
              "table agreement"),
-    "C19": P([BLOCKT, DETAILS, ("misc", "scoped_pending", {}), CLEARS],
+    "C19": P([LCG, BLOCKT, DETAILS, ("misc", "scoped_pending", {}), CLEARS],
              "necessary: every opener pushed, exit bodies scoped to their block and resolved Before the closing else/end",
              "R-BLOCK-TABLES(1,2), R-RESOLVER-DETAILS, R-SCOPED-PENDING, R-RESOLVE-CLEARS.",
              "firing semantics.",
              "table agreement + container scoping analysis"),
-    "C20": P([BLOCKT, DETAILS, ("misc", "flag_reset", {}), ("misc", "dead_after_sink", {}), CLEARS],
+    "C20": P([LCG, BLOCKT, DETAILS, ("misc", "flag_reset", {}), ("misc", "dead_after_sink", {}), CLEARS],
              "necessary: branch tables agree, target id arithmetic, flag protocol (set/reset), flag reset inside guard, no After code on the final end",
              "R-BLOCK-TABLES(1,3), R-RESOLVER-DETAILS, R-FLAG-RESET, R-DEAD-AFTER-SINK, R-RESOLVE-CLEARS.",
              "exactly-once at run time.",
              "table agreement + path enumeration"),
-    "C21": P([BLOCKT, DETAILS, CLEARS, CLEARCOH],
+    "C21": P([LCG, BLOCKT, DETAILS, CLEARS, CLEARCOH],
              "necessary: opener stack, delete_block bookkeeping, retain_end, every visited instruction emptied while deleting",
              "R-BLOCK-TABLES(1,2), R-RESOLVER-DETAILS, R-RESOLVE-CLEARS, R-CLEAR-COHERENT.",
              "textual result.",
              "table agreement + guarded-write analysis"),
-    "C22": P([("special", "special_flag", {}), CLEARS, ("special", "entry_preserve", {}), MODEF, SIB, ("misc", "dead_after_sink", {}), ("modes", "has_instr_cover", {}), CLEARCOH],
+    "C22": P([LCG, ("special", "special_flag", {}), CLEARS, ("special", "entry_preserve", {}), MODEF, SIB, ("misc", "dead_after_sink", {}), ("modes", "has_instr_cover", {}), CLEARCOH, INJAT],
              "necessary set: the is-special result is never dropped, lowered lists are cleared with the matching mode, the saved entry body is never overwritten, mode→list dispatch, no dead After sink",
-             "R-SPECIAL-FLAG, R-RESOLVE-CLEARS, R-ENTRY-PRESERVE, R-MODE-FIELD, R-SIBLING(instrumenter), R-DEAD-AFTER-SINK, R-HAS-INSTR, R-CLEAR-COHERENT.",
+             "R-SPECIAL-FLAG, R-RESOLVE-CLEARS, R-ENTRY-PRESERVE, R-MODE-FIELD, R-SIBLING(instrumenter), R-DEAD-AFTER-SINK, R-HAS-INSTR, R-CLEAR-COHERENT, R-INJECT-AT.",
              "that every accepted special injection appears in the bytes for every body.",
              "result-use analysis + guarded-write analysis"),
-    "C23": P([("emit", "tag_emit", {}), MODEF],
+    "C23": P([("emit", "tag_emit", {}), MODEF, ("misc", "type_dedup", {})],
              "necessary: InjectType↔Injection pairing, guards, parse-path tags are None, probe bodies collected after remapping",
-             "R-TAG-EMIT (incl. R-PARSE-TAG-NONE), R-MODE-FIELD.",
+             "R-TAG-EMIT (incl. R-PARSE-TAG-NONE), R-MODE-FIELD, R-TYPE-DEDUP (a parsed type is never overwritten by a tagged request for the same signature).",
              "record multiset over histories.",
              "pairing table + dominance by statement order"),
     "C24": P([("opcode", "opcode_table", {}), TT_AUX, TT_BOTH],
